@@ -1,5 +1,6 @@
 /-
-  C08 — the lost update of the NON-atomic `done += 1` in `gather_futures.on_finish` for EVERY number of workers
+  C08 — the lost update of the NON-atomic `done += 1` in `gather_futures.on_finish` (the PRE-FIX machine: /repo takes the
+  increment under a lock since 6013951, see Props/C08_race_shipped.lean) for EVERY number of workers
   (`Props/C08_race.lean` has the witnesses for n = 2 and n = 3 by `decide`).
 
   Schedule: every worker LOADs, then every worker STOREs, then every worker TESTs
